@@ -89,12 +89,27 @@ static int has_exponent_ending_in_zero(const char *full)
 	return e && full[strlen(full) - 1] == '0';
 }
 
+/* when set, check_tree judges this already built (and since modified) node against the model value */
+static struct json_object *(*prebuilt_fn)(int);
+static int prebuilt_arg, prebuilt_wrap;
 static void check_tree(V *v)
 {
 	cur_v = v;
 	if (!mc_case_begin())
 		return;
-	struct json_object *o = v_build(v);
+	struct json_object *o;
+	if (prebuilt_fn)
+	{
+		o = prebuilt_fn(prebuilt_arg);
+		if (prebuilt_wrap)
+		{
+			struct json_object *w = json_object_new_array();
+			json_object_array_add(w, o);
+			o = w;
+		}
+	}
+	else
+		o = v_build(v);
 	sb_reset(&d1);
 	v_dump(v, &d1, 0);
 	int nontriv = 0;
@@ -638,11 +653,78 @@ static void fam_formats(void)
 	fmt_desc[0] = 0;
 }
 
+/* ---- family: nodes with a history (setters), not fresh from a constructor ---- */
+static const char s45[] = "a longer text with \"quotes\", a / and a \n in it";
+static struct json_object *hist_build(int k)
+{
+	struct json_object *o = NULL;
+	switch (k)
+	{
+	case 0: o = json_object_new_uint64(UINT64_MAX); json_object_set_int64(o, -5); break;
+	case 1: o = json_object_new_uint64(7); json_object_set_int(o, -2147483647 - 1); break;
+	case 2: o = json_object_new_int64(-9); json_object_set_uint64(o, (uint64_t)1 << 63); break;
+	case 3: o = json_object_new_int64(INT64_MAX); json_object_int_inc(o, 1); json_object_set_int64(o, -1); break;
+	case 4: o = json_object_new_int(5); json_object_int_inc(o, -10); break;
+	case 5: o = json_object_new_double_s(1.5, "1.50"); json_object_set_double(o, 2.5); break;
+	case 6: o = json_object_new_double(1.0); json_object_set_double(o, -0.0); break;
+	case 7: o = json_object_new_string("short"); json_object_set_string(o, s45); break;
+	case 8: o = json_object_new_string(s45); json_object_set_string(o, s45); json_object_set_string(o, "x\ty"); break;
+	case 9: o = json_object_new_string(""); json_object_set_string_len(o, "a\0b/\"", 6); break;
+	case 10: o = json_object_new_string(s45); json_object_set_string(o, ""); break;
+	case 11: o = json_object_new_boolean(1); json_object_set_boolean(o, 0); break;
+	case 12: o = json_object_new_uint64(UINT64_MAX); json_object_set_int64(o, -5); json_object_set_uint64(o, 3); break;
+	}
+	return o;
+}
+static V *hist_model(int k)
+{
+	switch (k)
+	{
+	case 0: return v_int(1, 5);
+	case 1: return v_int(1, (uint64_t)1 << 31);
+	case 2: return v_int(0, (uint64_t)1 << 63);
+	case 3: return v_int(1, 1);
+	case 4: return v_int(1, 5);
+	case 5: return v_dbl(2.5);
+	case 6: return v_dbl(-0.0);
+	case 7: return v_strz(s45);
+	case 8: return v_strz("x\ty");
+	case 9: return v_str("a\0b/\"", 6);
+	case 10: return v_strz("");
+	case 11: return v_bool(0);
+	default: return v_int(0, 3);
+	}
+}
+static void fam_histories(void)
+{
+	cur_fam = "set-histories";
+	for (int k = 0; k <= 12; k++)
+		for (int wrap = 0; wrap < 2; wrap++)
+		{
+			va_reset();
+			V *m = hist_model(k);
+			if (wrap)
+			{
+				V *a = v_arr(1);
+				a->items[0] = m;
+				m = a;
+			}
+			prebuilt_fn = hist_build;
+			prebuilt_arg = k;
+			prebuilt_wrap = wrap;
+			check_tree(m);
+			prebuilt_fn = NULL;
+			prebuilt_wrap = 0;
+		}
+}
+
 static void enumerate(void)
 {
 	const char *only = mc_opt("fam", "");
 	if (!*only || !strcmp(only, "scale"))
 		fam_scale();
+	if (!*only || !strcmp(only, "histories"))
+		fam_histories();
 	if (!*only || !strcmp(only, "formats"))
 		fam_formats();
 	if (!*only || !strcmp(only, "ints"))
